@@ -1,3 +1,4 @@
+mod c11;
 mod c13;
 mod c15;
 mod coqfmt;
@@ -19,6 +20,7 @@ fn main() {
     std::fs::create_dir_all(&out).expect("create out dir");
     let r = match cmd.as_str() {
         "reflect" => reflect::run(&out),
+        "c11" => c11::run(&out, seed, thorough),
         "c13" => c13::run(&out, seed, thorough),
         "c15" => c15::run(&out, seed, thorough),
         _ => { eprintln!("usage: hx <reflect|c13|...> --out DIR [--seed N] [--tier quick|thorough]"); std::process::exit(2); }
